@@ -68,6 +68,23 @@ def run(ck, tier):
                           e["plants"], [[(h["ab"], h["ae"], h["bb"], h["be"], h["score"]) for h in ps["hits"]][:5] for ps in e["passes"]]),
                          {"kind": "pals-case", "seed": ck.seed, "case": e["id"], "record": e, "why": why,
                           "cmd": "vpals run -n %d -seed %d (case %d)" % (n, ck.seed, e["id"])})
+        # extension (beyond C15): Packer layout and NewPair's mapping of packed coordinates back to contigs
+        r = vlib.tlc("Pals", "Pack", "PackMC.cfg", workers=4, timeout=900)
+        vlib.tlc_expect_ok(r, "PackMC")
+        ck.mc("PackMC (extension)", r, "bin alignment, bin table, separation, hits mapped back on both strands; all <= 3 contigs of length <= 9, bin 4")
+        r = vlib.tlc("Pals", "Pack", "PackNeg.cfg", workers=4, timeout=900)
+        if r.violated != "Separated":
+            raise vlib.Infra("negative control (short padding not extended) not refuted: %s" % r.violated)
+        ck.mc("PackNeg (extension)", r, "padding shorter than the minimum left as it is: refuted")
+        pk = os.path.join(work, "packs.ndjson")
+        vlib.harness(["packs", "-n", 1500 if thorough else 200, "-seed", ck.seed, "-out", pk], cmd="vpals", timeout=3000)
+        vp, r = vlib.validate("Pals", "PackTrace", "PackTrace.cfg", pk, timeout=3000)
+        ck.mc("trace:packs (extension)", r, "%d pack events, 12 mapped hits each" % vp["events"])
+        ck.extra["extension_events"] = vp["events"]
+        ck.extra["extension_drift"] = len(vp["drift"])
+        if vp["drift"]:
+            vlib.log("  [note] extension (Pack.tla): %d of %d pack events differ from the specification (drift, no verdict); first: %s"
+                     % (len(vp["drift"]), vp["events"], json.dumps(vlib.read_ndjson(pk)[vp["drift"][0] - 1])[:600]))
         e = next((x for x in evs if any(ps["hits"] for ps in x["passes"])), evs[0])
         ck.samples.append({"source": "PALS comparison", "record": {k: e[k] for k in ("minlen", "minid_ppm", "self", "tlen", "qlen", "plants")},
                            "hits": [[{k: h[k] for k in ("ab", "ae", "bb", "be", "score", "err_ppm")} for h in ps["hits"]][:3] for ps in e["passes"]]})
